@@ -106,6 +106,19 @@ pub fn render_obo(rng: &mut Rng, f: &Facts, flags: &Flags, case: &mut Case, oo: 
             l.push("created_by: doelkens".to_string());
             l.push("creation_date: 2008-02-27T02:20:00Z".to_string());
         }
+        if rng.chance(1, 5) {
+            // a bare stanza: only the lines that carry facts
+            l.retain(|x| {
+                ["[Term]", "id: ", "name: ", "name:", "is_a: ", "is_obsolete: ", "replaced_by: "].iter().any(|p| x.starts_with(p))
+            });
+            case.stat("bare_stanzas", 1);
+        }
+        if rng.chance(1, 4) {
+            // tag order is free: the name as the LAST line of the stanza
+            let nmline = l.remove(2);
+            l.push(nmline);
+            case.stat("stanzas_with_name_last", 1);
+        }
         blocks.push(l.join("\n"));
     }
     let ntd = rng.below(3);
